@@ -35,9 +35,9 @@ BOUNDS = {
              '(14400 files); values position coded, exactly representable.  cover: every 32 bit word hi16 x lo16 with one '
              'half ranging over all 2^16 and the other over {0,1,0x7FFF,0x8000,0xFFFF,0x5555} (786k words) as frame data in '
              'files of 6 layouts.  big blocks: channels {1,10,20} x frames {16,17,33,40} x frames/block {8,16,17,32} x 2 '
-             'directions (both tiers).  The repository example file (2 passes, 1472+1440 frames x 10 channels)',
+             'directions (both tiers); 27 three-pass and 81 four-pass files.  The repository example file (2 passes, 1472+1440 frames x 10 channels)',
     'thorough': 'layout: 1 pass x channels {1,2,3,4,19,20} x frames 1..7 x frames/block {1,2,3,4} x '
-                '{100,97,0.5,0.25,1000.125}^3; 2 passes x (6 x 7 x 4)^2 x 4 pairs; 27 three-pass files; cover with %d '
+                '{100,97,0.5,0.25,1000.125}^3; 2 passes x (6 x 7 x 4)^2 x 4 pairs; 27 three-pass, 81 four-pass and 32 five-pass files; cover with %d '
                 'boundary patterns for the fixed half (all single bits, low and high masks; %.1fM words); example file',
 }
 RULE = ('full product of the layout alphabets, each file produced once; cover words each placed once; non-trivial = more '
@@ -72,7 +72,7 @@ COVER_RANGE = 512
 def _tier(tier):
     if tier == 'quick':
         return {'channels': [1, 2, 3, 20], 'frames': [1, 2, 3, 4, 5], 'fpb': [1, 2, 3],
-                'xvals': [100, 97, 0.5, 0.25], 'fixed': COVER_FIXED_Q, 'three': False}
+                'xvals': [100, 97, 0.5, 0.25], 'fixed': COVER_FIXED_Q, 'three': True}
     return {'channels': [1, 2, 3, 4, 19, 20], 'frames': [1, 2, 3, 4, 5, 6, 7], 'fpb': [1, 2, 3, 4],
             'xvals': [100, 97, 0.5, 0.25, 1000.125], 'fixed': COVER_FIXED_T, 'three': True}
 
@@ -96,7 +96,10 @@ def shards(tier):
             for c2 in t['channels']:
                 out.append({'kind': 'two', 'c1': c1, 'f1': f1, 'c2': c2})
     if t['three']:
-        out.append({'kind': 'three'})
+        out.append({'kind': 'three', 'n': 3})
+        out.append({'kind': 'three', 'n': 4})
+        if tier != 'quick':
+            out.append({'kind': 'three', 'n': 5})
     for c in BIG_CHANNELS:
         out.append({'kind': 'big', 'c': c})
     for a in range(0, 0x10000, COVER_RANGE):
@@ -392,9 +395,9 @@ def run_shard(shard, tier):
                         res.count('short_last_block', (1 if f1 % fpb1 and f1 > fpb1 else 0) + (1 if f2 % fpb2 and f2 > fpb2 else 0))
                         res.count('values', c1 * f1 + c2 * f2)
     elif kind == 'three':
-        small = [(1, 1, 1), (2, 3, 2), (20, 5, 3)]
-        for combo in itertools.product(small, repeat=3):
-            model = {'passes': [layout_pass(i, c, f, fpb, (100, 97, 0.5) if i != 1 else (97, 100, 0.25))
+        small = [(1, 1, 1), (2, 3, 2), (20, 5, 3)] if shard.get('n', 3) < 5 else [(1, 1, 1), (2, 3, 2)]
+        for combo in itertools.product(small, repeat=shard.get('n', 3)):
+            model = {'passes': [layout_pass(i, c, f, fpb, (100, 97, 0.5) if i % 2 == 0 else (97, 100, 0.25))
                                 for i, (c, f, fpb) in enumerate(combo)]}
             bad, outcome = check_model(model)
             _record(res, ('three', combo), {'kind': 'model', 'model': model}, True, bad, outcome)
